@@ -26,16 +26,17 @@ ASSUMPTIONS = ["C locale; time_t and long are 64 bit, int is 32 bit, char is sig
                "(more than 50 years in the future = the calendar fields compare greater than those of now + 50 years)"]
 MANIFEST = {
     "text": "full modulo libc: theorems parse_format (every t of 1970..9999 survives FormatRfc1123 then ParseRfc1123), "
-            "format_is_imf_fixdate, asctime_round_trip, rfc850_round_trip, imf_fixdate_denoted_partial / asctime_denoted_partial (every "
-            "accepted IMF-fixdate or asctime string whose day exists in its month yields the one time with exactly those calendar "
-            "fields), rfc850_fixed_window, rfc850_denoted_partial, insane_fields_rejected hold for all inputs in a model that follows "
-            "make_num, make_month, tmSaneValues, parse_date_elements, parse_date (strtok loop, 63-byte copy) and the timegm branch of "
-            "ParseRfc1123 branch by branch; the calendar is a recursive year/month walk and both round trips are proved by induction. "
-            "Two parts of the statement are false of the real code and proved as counterexamples (known findings): a day that does not "
-            "exist (31 Feb) is accepted and carried into the next month, and the RFC 850 two-digit year uses the fixed window 1970..2069 "
-            "instead of the RFC 9110 sliding window. month_names, RFC1123_STRFTIME, strftime's %a/%b output, the tmSaneValues bounds and "
-            "the copy size are regenerated from the staged code every run; the real functions run under ASan/UBSan against the model "
-            "and a direct oracle (independent closed-form calendar in python), every day of 1970..9999 in the thorough tier",
+            "format_is_imf_fixdate, asctime_round_trip, rfc850_round_trip, imf_fixdate_denoted / asctime_denoted (every accepted "
+            "IMF-fixdate or asctime string yields the one time with exactly the written calendar fields), insane_fields_rejected "
+            "(hour 24, minute 60, leap second, a day that does not exist in its month are rejected), rfc850_fixed_window, "
+            "rfc850_denoted_partial hold for all inputs in a model that follows make_num, make_month, tmSaneValues (with its month "
+            "table and Feb-29 rule), parse_date_elements, parse_date (strtok loop, 63-byte copy) and the timegm branch of ParseRfc1123 "
+            "branch by branch; the calendar is a recursive year/month walk and both round trips are proved by induction. One part of "
+            "the statement is false of the real code and proved as a counterexample (known finding): the RFC 850 two-digit year uses "
+            "the fixed window 1970..2069 instead of the RFC 9110 sliding window. month_names, RFC1123_STRFTIME, strftime's %a/%b "
+            "output, the tmSaneValues bounds and month lengths and the copy size are regenerated from the staged code every run; the "
+            "real functions run under ASan/UBSan against the model and a direct oracle (independent closed-form calendar in python), "
+            "every day of 1970..9999 in the thorough tier",
     "note": "trusted: Lean kernel (+propext/Classical.choice/Quot.sound as printed), dump program, C++ harness, python oracle; "
             "modelled not verified: the libc functions listed in the trusted base (C locale, glibc atoi/strftime behaviour)",
     "technique": "Lean 4 proof (induction over a recursive calendar, token-level lemmas, decide over regenerated tables) + table "
@@ -171,13 +172,7 @@ def judge_parse(s, t):
     if kind == "y2" and denoted(fields, NOW + 7200) != den:
         return None, None     # the sliding window moves over this very timestamp while the check runs
     if den[0] == "none":
-        cls = None
-        if hh <= 23 and mm <= 59 and ss <= 59 and 1 <= d <= 31:
-            # the year the code may have used: the written one, or for two digits the fixed-window / the RFC 9110 reading
-            ys = [yv] if kind == "y4" else [1900 + yv if yv >= 70 else 2000 + yv, rfc850_year(yv, (mo, d, hh, mm, ss), NOW)]
-            if any(d > month_len(y, mo) and t == linear_time(y, mo, d, hh, mm, ss) for y in ys):
-                cls = "day"
-        return "accepted a %s date that denotes no time: %s (returned %d)" % (form, den[1], t), cls
+        return "accepted a %s date that denotes no time: %s (returned %d)" % (form, den[1], t), None
     if t != den[1]:
         cls = None
         if kind == "y2":
@@ -245,8 +240,6 @@ def classify(line, impl, why):
         return None
     t = int(impl.split(" ")[0])
     cls = judge_parse(unhx(w[1]), t)[1]
-    if cls == "day":
-        return "C35-nonexistent-day-carried"
     if cls == "window":
         return "C35-rfc850-fixed-century-window"
     return None
@@ -467,23 +460,21 @@ def boundary_strings():
 
 
 def known_region(s):
-    """strings on which one of the two known findings shows (decided from the string alone)"""
+    """strings on which the known finding (fixed century window) shows (decided from the string alone)"""
     form, fields = classify_form(s)
-    if form is None:
+    if form != "rfc850":
         return False
     (kind, yv), mo, d, hh, mm, ss = fields
     if hh > 23 or mm > 59 or ss > 59 or not (1 <= d <= 31):
         return False
-    if kind == "y4":
-        return d > month_len(yv, mo)
     fixed = 1900 + yv if yv >= 70 else 2000 + yv
     sliding = rfc850_year(yv, (mo, d, hh, mm, ss), NOW)
-    return fixed != sliding or d > month_len(fixed, mo)
+    return fixed != sliding and d <= month_len(fixed, mo)
 
 
 def cases(rng, tier):
-    """The framework classifies only the first 40 failing cases of a run: cases inside the region of the two known findings
-    are moved to the end of the stream (quick: a sample of 30 of them) so that they cannot crowd out anything else."""
+    """Cases inside the region of the known finding are moved to the end of the stream (quick: a sample of 30 of them) so
+    that they cannot crowd out anything else among the failing cases the framework minimises."""
     tail = []
     for line in all_cases(rng, tier):
         if line.startswith("p ") and line != "p -" and known_region(unhx(line[2:])):
